@@ -59,7 +59,11 @@ seq_t dtw_distance{{ suffix }}{{ suffix2 }}(seq_t *s1, idx_t l1,
     #ifdef DTWDEBUG
     printf("r=%zu, c=%zu\n", l1, l2);
     #endif
-    if (settings->use_pruning || settings->only_ub) {
+    // The Euclidean distance is only an upper bound when its path (the diagonal, then along the
+    // border) is admissible and not penalized
+    bool use_pruning = settings->use_pruning && settings->max_step == 0 &&
+                       (settings->penalty == 0 || l1 == l2);
+    if (use_pruning || settings->only_ub) {
         {%- if "ndim" in suffix %}
         max_dist = ub_euclidean_ndim{{ suffix2 }}(s1, l1, s2, l2, ndim);
         {%- else %}
